@@ -169,7 +169,7 @@ def run(ctx):
                  consts(["a"], [16, 17], 1, 4, 0, 0, ["gen"], fix="TRUE", one="TRUE")]
     shapes = [(["a", "b"], [16, 17], 2, 3, ctx.pick(6, 8))]
     if ctx.thorough:
-        shapes.append((["a"], [16, 17, 18], 2, 4, 8))
+        shapes.append((["a"], [16, 17, 18], 2, 4, 7))
     strict = [("Reload_strict.cfg", consts(["a"], [16], 1, 0, 4, 10, ["macro"]), []),
               ("Reload_gap.cfg", consts(["a"], [16, 17], 1, 0, 2, 8, ["macro"]), [cmd("snap", p=2), cmd("finish", p=2)]),
               # the model WITHOUT KeepAlive: schedules in which a collection closes a shard whose results are still
